@@ -56,8 +56,15 @@ class _Raw:
 
 class _Resp:
 
-  def __init__(self, data, inj, sizes):
-    self.headers = {'content-length': str(len(data)), 'Content-Length': str(len(data))}
+  def __init__(self, data, inj, sizes, hdr='ok'):
+    # `hdr='none'`: a successful response without a content-length header (chunked transfer
+    # encoding, transcoded objects); the body is the same payload.
+    from requests.structures import CaseInsensitiveDict
+    self.headers = CaseInsensitiveDict({'Content-Type': 'application/octet-stream'})
+    if hdr == 'ok':
+      self.headers['Content-Length'] = str(len(data))
+    else:
+      self.headers['Transfer-Encoding'] = 'chunked'
     self.status_code = 200
     self.raw = _Raw(data, inj, sizes)
     self._data = data
@@ -133,7 +140,9 @@ class C19(core.Property):
   RULE = ('cases = (payload kind raw|lzma, payload size around the transfer block sizes 2^18 / COPY_BUFSIZE, '
           'initial cache state incl. stale temp files and already complete finals, and either the exhaustive '
           'enumeration of every crash point (event index x byte prefix of each write) of one call or a random '
-          'schedule of 1-4 interrupted calls with crash / OSError modes), always followed by completed calls and a '
+          'schedule of 1-4 interrupted calls with crash / OSError / hard-kill modes; lzma archives with 1-3 '
+          'concatenated streams and an optional empty first stream (reference = lzma.decompress of the whole file); '
+          'download responses with and without a content-length header), always followed by completed calls and a '
           'reuse call; non-trivial = at least one interruption happened after the first file-system effect; '
           'distinct by case digest')
   TRUSTED = ['POSIX rename atomicity; Python file objects / lzma / shutil.copyfileobj; network I/O of `requests` '
@@ -184,6 +193,15 @@ class C19(core.Property):
     yield {'kind': 'lzma', 'size': C + 1, 'init': {**empty, 'dl': True, 'decPart': 70000}, 'enumerate': 1}
     yield {'kind': 'lzma', 'size': 3 * C + 7, 'init': dict(empty), 'enumerate': 0}
     yield {'kind': 'lzma', 'size': 5, 'init': dict(empty), 'enumerate': 1}     # source missing: raises
+    # legal multi-stream archives (cat a.xz b.xz, lzma.open(..., 'ab')), also with an empty first stream
+    yield {'kind': 'lzma', 'size': 5000, 'streams': 2, 'init': dict(empty), 'sched': [[0, 1000, 0, 0], [1, 1000, 0, 0]]}
+    yield {'kind': 'lzma', 'size': 3 * C + 7, 'streams': 3, 'init': {**empty, 'dl': True}, 'enumerate': 1}
+    yield {'kind': 'lzma', 'size': C + 1, 'streams': 2, 'empty_first': True, 'init': {**empty, 'dl': True}, 'enumerate': 1}
+    # successful responses that do not announce their size (no content-length header)
+    for s in (1, B + 1):
+      yield {'kind': 'raw', 'size': s, 'init': dict(empty), 'sched': [[0, 1000, 0, 0, 'none']]}
+    yield {'kind': 'raw', 'size': 3 * B + 7, 'init': {**empty, 'dlPart': 3}, 'sched': [[0, 600, 500, 0, 'none'], [0, 1000, 0, 0, 'none']]}
+    yield {'kind': 'lzma', 'size': 70000, 'streams': 2, 'init': dict(empty), 'sched': [[0, 1000, 0, 0, 'none'], [1, 500, 0, 2]]}
     if tier == 'thorough':
       for s in (2, 4095, 2 * B, 2 * B + 1, 5 * B - 1):
         yield {'kind': 'raw', 'size': s, 'init': {**empty, 'dlPart': s // 3}, 'enumerate': 0, 'fine': True}
@@ -203,8 +221,17 @@ class C19(core.Property):
       sched = []
       for _ in range(rng.randrange(1, 5)):
         call = 0 if kind == 'raw' else rng.choice([0, 1, 1])
-        sched.append([call, rng.randrange(0, 1001), rng.randrange(0, 1001), rng.choice([0, 0, 1, 2, 3])])
-      yield {'kind': kind, 'size': size, 'init': init, 'sched': sched}
+        step = [call, rng.randrange(0, 1001), rng.randrange(0, 1001), rng.choice([0, 0, 1, 2, 3])]
+        if call == 0 and rng.random() < 0.15:
+          step.append('none')
+          if rng.random() < 0.5:
+            step[1] = 1000         # not interrupted: the call itself has to cope with the missing header
+        sched.append(step)
+      case = {'kind': kind, 'size': size, 'init': init, 'sched': sched}
+      if kind == 'lzma' and rng.random() < 0.4:
+        case['streams'] = rng.choice([2, 2, 3])
+        case['empty_first'] = rng.random() < 0.3
+      yield case
 
   def shrink(self, case):
     if 'enumerate' in case:
@@ -232,13 +259,17 @@ class C19(core.Property):
     for k in ('dec',):
       if init.get(k):
         yield {**case, 'init': {**init, k: False}}
+    if case.get('empty_first'):
+      yield {**case, 'empty_first': False}
+    if case.get('streams', 1) > 2:
+      yield {**case, 'streams': 2}
     s = case['size']
     for c in sorted({1000, s // 2, s - 1}):
       if 0 < c < s:
         yield {**case, 'size': c}
     for i, st in enumerate(sched):
       if st[3] == 1:
-        yield {**case, 'sched': sched[:i] + [[st[0], st[1], st[2], 0]] + sched[i + 1:]}
+        yield {**case, 'sched': sched[:i] + [[st[0], st[1], st[2], 0] + list(st[4:])] + sched[i + 1:]}
       for j in (1, 2):
         for c in (500, 0):
           if st[j] != c and (st[j] > c):
@@ -247,8 +278,11 @@ class C19(core.Property):
             yield {**case, 'sched': sched[:i] + [ns] + sched[i + 1:]}
 
   # ------------------------------------------------------------------------------------------
-  def payloads(self, kind, size):
-    key = (kind, size)
+  def payloads(self, kind, size, streams=1, empty_first=False):
+    """(bytes served by the download, decompressed reference).  For kind 'lzma' the archive consists of
+    `streams` concatenated xz streams (as `cat a.xz b.xz` / `lzma.open(..., 'ab')` produce), optionally
+    preceded by an empty stream; the reference is Python's `lzma.decompress` of the whole archive."""
+    key = (kind, size, streams, empty_first)
     if key not in self._pcache:
       if len(self._pcache) > 40:
         self._pcache.clear()
@@ -256,10 +290,18 @@ class C19(core.Property):
         self._pcache[key] = (pattern(size, 3), b'')
       else:
         dec = pattern(size, 11)
-        self._pcache[key] = (_lzma.compress(dec, preset=1), dec)
+        k = max(1, int(streams))
+        cuts = [size * i // k for i in range(k + 1)]
+        comp = b''.join(_lzma.compress(dec[cuts[i]:cuts[i + 1]], preset=1) for i in range(k))
+        if empty_first:
+          comp = _lzma.compress(b'', preset=1) + comp
+        ref = _lzma.decompress(comp)
+        if ref != dec:
+          raise core.InfraError('lzma reference decompression of the generated archive differs from the payload')
+        self._pcache[key] = (comp, ref)
     return self._pcache[key]
 
-  def run_call(self, d, name, call, inj, dl_bytes, read_sizes):
+  def run_call(self, d, name, call, inj, dl_bytes, read_sizes, hdr='ok'):
     """Runs one real call with all effects routed through `inj`.
     Returns ('ok', path) | ('crash', None) | ('raise', ExceptionName)."""
     dl = self.dl
@@ -285,7 +327,7 @@ class C19(core.Property):
 
     def w_get(url, *a, **k):
       inj.event('net', 'get')
-      return _Resp(dl_bytes, inj, read_sizes)
+      return _Resp(dl_bytes, inj, read_sizes, hdr)
 
     def w_lzma_open(filename, mode='rb', *a, **k):
       inj.event('read', 'open')
@@ -429,7 +471,7 @@ class C19(core.Property):
   # ------------------------------------------------------------------------------------------
   def evaluate(self, case, ctx):
     kind, size, init = case['kind'], case['size'], case['init']
-    P, D = self.payloads(kind, size)
+    P, D = self.payloads(kind, size, case.get('streams', 1), case.get('empty_first', False))
     dlname, decname = self.names(kind)
     root = mkdtemp('verif_c19_')
     try:
@@ -447,7 +489,7 @@ class C19(core.Property):
     self.populate(d, kind, init, P, D)
     return d
 
-  def _clean_events(self, root, src_dir, kind, call, P, hard=False):
+  def _clean_events(self, root, src_dir, kind, call, P, hard=False, hdr='ok'):
     """Events of an uninterrupted run of `call` from the state of `src_dir` (on a copy)."""
     d = os.path.join(root, 'probe')
     if os.path.exists(d):
@@ -456,7 +498,7 @@ class C19(core.Property):
     inj = Injector(hard=hard)
     self._probe_pending = inj.pending_at
     sizes = []
-    res = self.run_call(d, self.names(kind)[0], call, inj, P, sizes)
+    res = self.run_call(d, self.names(kind)[0], call, inj, P, sizes, hdr)
     shutil.rmtree(d)
     return inj.events, res, sizes
 
@@ -628,9 +670,10 @@ class C19(core.Property):
     interrupted_late = False
     dl_block, dec_block = DL_BLOCK, CP_BLOCK
     for step in case['sched']:
-      call, cf, pf, mode = step
+      call, cf, pf, mode = step[:4]
+      hdr = step[4] if len(step) > 4 and call == 0 else 'ok'    # response-header variant of this download
       kill = mode in (2, 3)                # hard kill: unflushed data lost (fraction 0 / one half kept)
-      events, res, rsizes = self._clean_events(root, d, kind, call, P, hard=kill)
+      events, res, rsizes = self._clean_events(root, d, kind, call, P, hard=kill, hdr=hdr)
       pend = list(self._probe_pending)
       if call == 0 and rsizes and isinstance(rsizes[0], int) and rsizes[0] > 0:
         dl_block = rsizes[0]
@@ -648,15 +691,26 @@ class C19(core.Property):
         ctx.count('hard_kill_points')
       else:
         inj = Injector(crash_at=c, prefix=p, mode='ioerror' if mode == 1 else 'crash')
-      r = self.run_call(d, dlname, call, inj, P, [])
+      r = self.run_call(d, dlname, call, inj, P, [], hdr)
       listing, other = self.observe(d, kind, P, D)
       if other:
         corr.append(f'unexpected files {other}')
       if any(e[0] in FS_KINDS for e in events[:c]) and inj.fired:
         interrupted_late = True
+      if hdr != 'ok':
+        ctx.count('headerless_responses')
       for key, txt in self.oracle_state(d, kind, P, D, before):
         probs.append((key, (f'{CALLS[call]} killed before event {c} (unflushed data lost)' if kill else
-                            f'{CALLS[call]} interrupted at event {c} (+{p} bytes)') + f': {txt}'))
+                            f'{CALLS[call]} interrupted at event {c} (+{p} bytes)' if inj.fired else
+                            f'{CALLS[call]} ran to its end (result {r[0]} {r[1] if r[0] == "raise" else ""})') +
+                      ('' if hdr == 'ok' else ', response without content-length header') + f': {txt}'))
+      if hdr != 'ok' and not kill:
+        # oracle only: what a call does with a response that does not announce its size is not modelled
+        # (raising or reading to the end are both fine); the model continues from what is on disk
+        trace.append({'call': CALLS[call], 'response': 'no content-length header', 'crash_point': [c, p],
+                      'fired': inj.fired, 'result': list(r), 'impl_listing': listing})
+        fs_model = listing
+        continue
       if kill:
         # oracle only: the model is not consulted for hard-kill steps; it continues from what is on disk
         trace.append({'call': CALLS[call], 'hard_kill_before_event': c, 'event': [str(x) for x in events[c]] if c < len(events) else None,
